@@ -108,6 +108,27 @@ Theorem opt_grid_terminates : forall d k steps,
 Proof. exact CoverProofs.opt_grid_terminates. Qed.
 Print Assumptions opt_grid_terminates.
 
+Theorem opt_entry_cover_checked : forall d k steps sp nb capacity,
+  d < U32MOD -> k < U32MOD -> steps < U32MOD ->
+  opt_entry_cover 2100 d k steps sp nb capacity <> EntryHang /\
+  forall steps' sp' f' accel' jobs,
+    opt_entry_cover 2100 d k steps sp nb capacity = EntryJobs steps' sp' f' accel' jobs ->
+    1 <= nb /\ t_ZDICT_DICTSIZE_MIN <= capacity /\ sp_valid sp' /\
+    forall dj kj, In (dj, kj) jobs -> 0 < dj /\ dj <= kj /\ kj <= capacity.
+Proof. exact CoverProofs.opt_entry_cover_checked. Qed.
+Print Assumptions opt_entry_cover_checked.
+
+Theorem opt_entry_fast_checked : forall d k steps sp f accel nb capacity,
+  d < U32MOD -> k < U32MOD -> steps < U32MOD ->
+  opt_entry_fast 2100 d k steps sp f accel nb capacity <> EntryHang /\
+  forall steps' sp' f' accel' jobs,
+    opt_entry_fast 2100 d k steps sp f accel nb capacity = EntryJobs steps' sp' f' accel' jobs ->
+    1 <= nb /\ t_ZDICT_DICTSIZE_MIN <= capacity /\ sp_valid sp' /\
+    1 <= f' <= t_FASTCOVER_MAX_F /\ 1 <= accel' <= t_FASTCOVER_MAX_ACCEL /\
+    forall dj kj, In (dj, kj) jobs -> (dj = 6 \/ dj = 8) /\ dj <= kj /\ kj <= capacity.
+Proof. exact CoverProofs.opt_entry_fast_checked. Qed.
+Print Assumptions opt_entry_fast_checked.
+
 (* ---- ZDICT_finalizeDictionary *)
 Theorem finalize_size_accounting : forall capacity contentSize e hSize padding content,
   capacity < SZMODz -> 8 + e <= t_HBUFFSIZE ->
